@@ -43,7 +43,8 @@ def parseXf (s : Str) : Option Xf :=
       match svgNumberList (argstr.length + 1) argstr with
       | none => none
       | some args =>
-        let n := asciiLower name
+        -- white space may separate the name from its parenthesis (`name.trim()`)
+        let n := asciiLower (trim name)
         if n == cs!"translate" then
           match args with
           | [a] => some (.translate a 0)
